@@ -5,7 +5,11 @@ use vstd::arithmetic::power2::pow2;
 use core::cmp::Ordering;
 use core::ops::{Add, Sub, Mul, Div, Rem};
 verus! {
+// (own module: verified in its own solver context, independent of what else the unit contains)
+pub mod ratio_lemmas_m { use super::*;
 //@@ INCLUDE lib/ratio_lemmas.rs
+}
+pub use ratio_lemmas_m::*;
 //@@ INCLUDE lib/bigstub.rs
 impl Sign {
 // base/src/sign.rs: proved in unit ratio_ops / ratio_reduce, here seen through their contracts
@@ -15,10 +19,19 @@ impl Sign {
 }
 //@@ INCLUDE lib/ratio_types.rs
 //@@ INCLUDE lib/ratio2_stubs.rs
+pub mod ratio2_unique_lemmas_m { use super::*;
 //@@ INCLUDE lib/ratio2_unique_lemmas.rs
+}
+pub use ratio2_unique_lemmas_m::*;
+pub mod ratio2_lemmas_m { use super::*;
 //@@ INCLUDE lib/ratio2_lemmas.rs
+}
+pub use ratio2_lemmas_m::*;
 //@@ INCLUDE lib/farey_stubs.rs
+pub mod farey_lemmas_m { use super::*;
 //@@ INCLUDE lib/farey_lemmas.rs
+}
+pub use farey_lemmas_m::*;
 // rational/src/error.rs: `total` reading, the panic is unreachable under the precondition (limit != 0)
 #[verifier::external_body]
 pub fn panic_divide_by_0() -> ! requires false { unimplemented!() }
